@@ -265,6 +265,10 @@ fn eval_c10(case: &Case, acc: &Acc) -> Vec<Violation> {
     out
 }
 
+pub fn prefix_group_grammars_pub(tier: Tier) -> Vec<Gram> {
+    prefix_group_grammars(tier)
+}
+
 /// S with several groups of alternatives that share a first terminal (forces several factoring
 /// passes on one non-terminal and suffix-name generation with numbered names)
 fn prefix_group_grammars(tier: Tier) -> Vec<Gram> {
